@@ -349,7 +349,7 @@ func NewSQLiteStore(dbPath string, opts ...SQLiteOption) (*SQLiteStore, error) {
 		pollInterval:       25 * time.Millisecond,
 		dropPolicy:         "reject",
 		metrics:            newSQLiteRuntimeMetrics(),
-		checkpointInterval: defaultSQLiteCheckpointInterval,
+		checkpointInterval: verifhook.DurationOr("VERIF_SQLITE_CHECKPOINT_MS", defaultSQLiteCheckpointInterval),
 	}
 	for _, opt := range opts {
 		opt(s)
@@ -3208,6 +3208,7 @@ func (s *SQLiteStore) checkpointPassive() error {
 	err := s.db.QueryRowContext(context.Background(), "PRAGMA wal_checkpoint(PASSIVE);").
 		Scan(&busyPages, &walPages, &checkpointedPages)
 	s.observeSQLiteCheckpoint(time.Since(startedAt), err)
+	verifhook.Point("sqlite.checkpoint.done")
 	return err
 }
 
